@@ -506,7 +506,7 @@ fn replay(ctx: &Ctx, _engine: &str, case: &Value) -> CaseResult {
 pub static C12: PropDef = PropDef {
     id: "C12",
     level: "exploration",
-    rule: "proptest generates (handle kind in {Popen, Popen detached by config / by detach(), Exec join/capture/stream_stdout/stream_stderr/stream_stdin, Pipeline join/capture/stream_stdout/stream_stdin with 2..5 stages}, child behaviour in {exits at once, exits after <= 50 ms, reads stdin to EOF, writes N bytes (0, 1, pipe capacity -1/0/+1, 10 capacities, random) then exits, unbounded writer}, drop point in {before any I/O, after a partial read/write of r bytes, after EOF}, stage delays so that stages outlive the last one). Only behaviours that terminate once the handle's own pipe is released are generated. Oracle: the drop / call returns (otherwise the wait-for-graph oracle decides: harness thread in wait4(P) while P is blocked on a pipe whose other end only the harness holds = deadlock); afterwards waitpid(-1) reports ECHILD for every non-detached form; for a detached Popen the interposed waitpid log shows no call during the drop and the child is still waitable. Non-trivial = unread output or unwritten input pending at the drop, or a stage outliving the last one, or detached. Further handle kinds: stream adapters over a command (or pipeline, or pipeline member) that has a second stream set to Pipe - that pipe's parent end is locked inside the adapter and must be released before the wait as well. In an eighth of the cases the launch's exec-status read is interrupted (EINTR): whatever the launch reports, it must return and what it started must be reaped.",
+    rule: "proptest generates (handle kind in {Popen, Popen detached by config / by detach(), Exec join/capture/stream_stdout/stream_stderr/stream_stdin, Pipeline join/capture/stream_stdout/stream_stdin with 2..5 stages}, child behaviour in {exits at once, exits after <= 50 ms, reads stdin to EOF, writes N bytes (0, 1, pipe capacity -1/0/+1, 10 capacities, random) then exits, unbounded writer}, drop point in {before any I/O, after a partial read/write of r bytes, after EOF}, stage delays so that stages outlive the last one). Only behaviours that terminate once the handle's own pipe is released are generated. Oracle: the drop / call returns (otherwise the wait-for-graph oracle decides: harness thread in wait4(P) while P is blocked on a pipe whose other end only the harness holds = deadlock); afterwards waitpid(-1) reports ECHILD for every non-detached form; for a detached Popen the interposed waitpid log shows no call during the drop and the child is still waitable. Non-trivial = unread output or unwritten input pending at the drop, or a stage outliving the last one, or detached. Further handle kinds: stream adapters over a command (or pipeline, or pipeline member) that has a second stream set to Pipe - that pipe's parent end is locked inside the adapter and must be released before the wait as well. In an eighth of the cases the launch's exec-status read is interrupted (EINTR): whatever the launch reports, it must return and what it started must be reaped. In the pipeline forms the member that holds a stderr pipe of its own sits at any position, inner ones included.",
     assumptions: &["/proc/<pid>/syscall and /proc/<pid>/fd are readable (root)", "for a plain Popen the harness releases the pipe ends itself before the drop (they are the caller's)"],
     engines: "real",
     workers: |_| 16,
